@@ -5,6 +5,7 @@ import Uom.Proofs.KernelFloat
 import Uom.Proofs.FlCanonical
 import Uom.Proofs.FlFold
 import Uom.Proofs.BodyEq.Conv
+import Uom.Proofs.OracleSound
 /-!
 # C03 — unit conversion on construction and read-back is numerically faithful (floats)
 
@@ -139,6 +140,56 @@ example : Fl.Canonical b64 (Fl.zero b64 true) ∧ Fl.Canonical b64 (Fl.ofBits b6
 /-- non-vacuity / sanity: 1 km in SI base units is stored as exactly 1000.0 (binary64) -/
 example : Fl.toBits b64 (toBase (flS b64) (Fl.ofBits b64 0x408f400000000000) (Fl.zero b64 true) (Fl.one b64)
     (Fl.ofBits b64 0x3ff0000000000000)) = 0x408f400000000000 := by decide +kernel
+
+/-! ### the executable oracle accepts the model, for every input
+
+`oracleNew`, `oracleGet`, `oracleRoundTrip` (Uom/Model/Oracle.lean) are what the driver evaluates on
+the implementation's observed results; their guards (`toBaseNormal`, `fromBaseNormal`) are executable
+Booleans.  These theorems close the loop between the proved accuracy bounds and the executable check:
+for **every** case (canonical inputs, the identity constants signed as the crate signs them), the
+model's own result is never rejected.  So "the implementation is bit-identical to the model"
+(`DIFF = 0` in a run) implies "the implementation passes the oracle", and the oracle's tolerance is
+not an empirical fudge: it is implied by the rounding model of the soft-float. -/
+
+theorem oracle_accepts_new (c : ConvCase) (hf : c.fmt.WF) (h4 : 4 ≤ c.fmt.p)
+    (hv : Fl.Canonical c.fmt c.v) (hcoef : Fl.Canonical c.fmt c.coef) (hcA : Fl.Canonical c.fmt c.consA)
+    (hA : c.consA.isZero = true → c.consA.signBit = true) (why : String) :
+    oracleNew c (toBase (flS c.fmt) c.coef c.consA (baseFactor (flS c.fmt) c.pows) c.v) ≠ .fail why :=
+  Proofs.oracleNew_sound c hf h4 hv hcoef hcA hA why
+
+theorem oracle_accepts_get (c : ConvCase) (hf : c.fmt.WF) (h4 : 4 ≤ c.fmt.p)
+    (hv : Fl.Canonical c.fmt c.v) (hcoef : Fl.Canonical c.fmt c.coef) (hcS : Fl.Canonical c.fmt c.consS)
+    (hS : c.consS.isZero = true → c.consS.signBit = false) (why : String) :
+    oracleGet c (fromBase (flS c.fmt) c.coef c.consS (baseFactor (flS c.fmt) c.pows) c.v) ≠ .fail why :=
+  Proofs.oracleGet_sound c hf h4 hv hcoef hcS hS why
+
+theorem oracle_accepts_roundtrip (c : ConvCase) (hf : c.fmt.WF) (h4 : 4 ≤ c.fmt.p)
+    (hv : Fl.Canonical c.fmt c.v) (hcoef : Fl.Canonical c.fmt c.coef)
+    (hcA : Fl.Canonical c.fmt c.consA) (hcS : Fl.Canonical c.fmt c.consS)
+    (hA : c.consA.isZero = true → c.consA.signBit = true)
+    (hS : c.consS.isZero = true → c.consS.signBit = false)
+    (hAS : c.consS.isZero = true → c.consA.isZero = true)
+    (hcc : c.consA.toRat = c.consS.toRat) (why : String) :
+    oracleRoundTrip c (fromBase (flS c.fmt) c.coef c.consS (baseFactor (flS c.fmt) c.pows)
+      (toBase (flS c.fmt) c.coef c.consA (baseFactor (flS c.fmt) c.pows) c.v)) ≠ .fail why :=
+  Proofs.oracleRoundTrip_sound c hf h4 hv hcoef hcA hcS hA hS hAS hcc why
+
+/-- why the sign hypotheses are there (and why the crate uses `-0.0` / `+0.0` as its identity
+    constants): with `consA = +0.0` the construction of `-0.0` is `+0.0`, which the identity clause rejects -/
+theorem oracle_rejects_wrongly_signed_zero_constant :
+    ∃ why, oracleNew Proofs.cexPosZero (toBase (flS Proofs.cexPosZero.fmt) Proofs.cexPosZero.coef Proofs.cexPosZero.consA
+      (baseFactor (flS Proofs.cexPosZero.fmt) Proofs.cexPosZero.pows) Proofs.cexPosZero.v) = .fail why :=
+  Proofs.oracleNew_unsound_poszero.2.2.2
+
+/-- the executable guard is *weaker* than the hypothesis `ToBaseOk` of `new_accuracy` (a rounded
+    product can be normal while the exact one is just below the normal range): the soundness theorems
+    above therefore go through a result-based rounding lemma (`Proofs.mul_approx_normal`), not through
+    `new_accuracy` -/
+theorem guard_weaker_than_ToBaseOk :
+    toBaseNormal Proofs.cexGap (baseFactor (flS Proofs.cexGap.fmt) Proofs.cexGap.pows) = true ∧
+      ¬ Proofs.ToBaseOk Proofs.cexGap.fmt Proofs.cexGap.coef Proofs.cexGap.consA
+        (baseFactor (flS Proofs.cexGap.fmt) Proofs.cexGap.pows) Proofs.cexGap.v :=
+  Proofs.guard_not_toBaseOk.2.2
 
 /-! ### tie to the source: the function bodies regenerated from /repo/src on this run
 
